@@ -319,6 +319,23 @@ LexResult Lexer::match(const char* p, int64_t n) const
     return r;
 }
 
+LexResult DfaLexer::match(const char* p, int64_t n) const
+{
+    LexResult r;
+    int st = 0;
+    int64_t i = 0;
+    for (;;)
+    {
+        if (st >= 0 && st < nstates && recognized[size_t(st)] >= 0 && i > 0) { r.term = recognized[size_t(st)]; r.len = i; }
+        if (i == n) { r.dead = n; break; }
+        int nx = (st >= 0 && st < nstates) ? next[size_t(st)][(unsigned char)p[i]] : -1;
+        if (nx < 0) { r.dead = i + 1; break; }
+        st = nx;
+        ++i;
+    }
+    return r;
+}
+
 // ---------------------------------------------------------------------------------------------
 // canonical LR(1)
 namespace
@@ -558,7 +575,10 @@ RefResult run(const Model& m, const char* bytes, int64_t n, const RunOptions& op
     {
         if (res.read_limit_at_first_message < 0 && res.messages.size() == 1) res.read_limit_at_first_message = limit;
     };
-    int64_t cur_read_limit = -1;   // highest offset legitimately examined so far (for the current term)
+    // highest offset that may legitimately have been examined so far: the look-ahead needed to delimit ANY term
+    // lexed up to now (a longest-match lexer reads on until no term can continue, then falls back)
+    int64_t cur_read_limit = -1;
+    auto raise_limit = [&](int64_t v) { if (v > cur_read_limit) cur_read_limit = v; };
 
     for (;;)
     {
@@ -582,7 +602,7 @@ RefResult run(const Model& m, const char* bytes, int64_t n, const RunOptions& op
                 if (pos >= n)
                 {
                     cur = Token{ g.eof_idx(), pos, 0, line, col };
-                    cur_read_limit = n - 1;
+                    raise_limit(n - 1);
                     if (!eof_recorded)
                     {
                         eof_recorded = true;
@@ -606,13 +626,13 @@ RefResult run(const Model& m, const char* bytes, int64_t n, const RunOptions& op
                                     break;
                                 }
                         res.lexcalls.push_back(RefResult::LexCall{ pos, line, col, idx, len });
-                        cur_read_limit = std::max<int64_t>(pos, pos + len - 1);
+                        raise_limit(std::max<int64_t>(pos, pos + len - 1));
                     }
                     else
                     {
-                        LexResult lr = m.lexer->match(bytes + pos, n - pos);
+                        LexResult lr = m.dfa ? m.dfa->match(bytes + pos, n - pos) : m.lexer->match(bytes + pos, n - pos);
                         idx = lr.term; len = lr.len;
-                        cur_read_limit = pos + lr.dead - 1;
+                        raise_limit(pos + lr.dead - 1);
                     }
                     if (idx < 0)
                     {
